@@ -298,7 +298,7 @@ func c17Cases(tier string) int {
 func init() {
 	register(&Prop{
 		ID: "C17", Level: "exploration",
-		Rule: "enumerated: 22 shapes built by programs (cycles of length 1-4 through arrays / objects / mixtures, cycles below acyclic and shared prefixes, two cycles, and 7 shared-but-acyclic shapes that must be printed in full), each printed by print, by a two-argument print and by printf %v; sampled: documents of 3-8 values (doubles from every class incl. random bit patterns, powers of 2 and 10, 2^53+-k, subnormals, +-0; strings; empty containers; nesting to depth 30, width to 50) printed by a body-less rule, bare print, print $ and a 5-argument print, compared with the reference rendering; laws on the output alone: no exponent, ParseFloat gives back the identical bits, container renderings whose strings need no escaping parse as JSON equal to the value. Non-trivial = number needing > 17 characters or |x| >= 1e21 or < 1e-6, container of depth >= 3, any shape.",
+		Rule:     "enumerated: 22 shapes built by programs (cycles of length 1-4 through arrays / objects / mixtures, cycles below acyclic and shared prefixes, two cycles, and 7 shared-but-acyclic shapes that must be printed in full), each printed by print, by a two-argument print and by printf %v; sampled: documents of 3-8 values (doubles from every class incl. random bit patterns, powers of 2 and 10, 2^53+-k, subnormals, +-0; strings; empty containers; nesting to depth 30, width to 50) printed by a body-less rule, bare print, print $ and a 5-argument print, compared with the reference rendering; laws on the output alone: no exponent, ParseFloat gives back the identical bits, container renderings whose strings need no escaping parse as JSON equal to the value. Non-trivial = number needing > 17 characters or |x| >= 1e21 or < 1e-6, container of depth >= 3, any shape.",
 		NumCases: c17Cases,
 		Run: func(c *Case) {
 			switch {
